@@ -1743,6 +1743,16 @@ def case_scan_on_connect(case):
         expected[(61, 0)] = 1
     out = []
     try:
+        # another part of the program waits for the connection and then sends at once: the scan is a transaction like any
+        # other, the frame goes out before or after it, not inside
+        from dali.gear import general as _gg
+        other_cmd = _gg.DAPC(9, 77)
+
+        async def other():
+            await sim.driver.wait_connected()
+            return await sim.driver.send(other_cmd)
+        t_other = sim.loop.create_task(other())
+        sim.tasks.append(t_other)
         task = sim.loop.create_task(sim.driver.connect(scan_dev_inst=True))
         sim.tasks.append(task)
         sim.drain(max_rounds=20000, max_virtual=600.0)
@@ -1766,6 +1776,15 @@ def case_scan_on_connect(case):
         if "StartQuiescentMode" not in kinds or "StopQuiescentMode" not in kinds or \
                 kinds.index("StartQuiescentMode") > kinds.index("QueryDeviceStatus") if "QueryDeviceStatus" in kinds else False:
             out.append(("C13:discover-quiescent-bracket:connect-scan", "frames sent by connect(scan_dev_inst=True): %r" % (kinds[:6],)))
+        if not t_other.done() or t_other.exception() is not None:
+            out.append(("C13:connect-scan-starves-other-caller:" + drv, "a caller that waited for the connection and sent one "
+                        "command: %s" % ("still pending" if not t_other.done() else repr(t_other.exception()))))
+        elif "StartQuiescentMode" in kinds and "StopQuiescentMode" in kinds and ("DAPC", 9) in names:
+            i_o = names.index(("DAPC", 9))
+            i_a, i_b = kinds.index("StartQuiescentMode"), len(kinds) - 1 - kinds[::-1].index("StopQuiescentMode")
+            if i_a < i_o < i_b:
+                out.append(("C13:frame-of-another-caller-inside-the-scan:" + drv, "a caller that waited for the connection sent DAPC(9): it "
+                            "is frame %d on the wire, the scan's frames are %d..%d" % (i_o, i_a, i_b)))
         # what the scan found is in the table the program can see: the one it handed over, and driver.dev_inst_map
         for label, table in (("the table handed to the constructor", mine), ("driver.dev_inst_map", getattr(sim.driver, "dev_inst_map", None))):
             if table is None:
